@@ -16,6 +16,9 @@ def one_case(rng, tier):
     case.obs("iter %d" % t)
     for n in sorted(set([0, 1, 2, 3, 4, 5, 6, 8, 12, 1000]) if rng.random() < 0.5 else [0, rng.choice([1, 2, 3, 4, 5, 7, 9]), 1000]):
         case.obs("trycompile %d %d" % (t, n))
+    if rng.random() < 0.3:      # bounds beyond 32 bits (usize is 64 bit)
+        for n in rng.sample([2 ** 32, 2 ** 32 + 1, 2 ** 32 + 2, (7 << 40) + 1, 2 ** 62 - 1, 2 ** 32 - 1, 2 ** 31], 3):
+            case.obs("trycompile %d %d" % (t, n))
     case.obs("closure %d %s" % (t, word(al.probe_chars()[:6])))
     case.obs("compile %d" % t)
     return case.line()
